@@ -35,7 +35,7 @@ class Cfg:
 
     FIELDS = (
         "kind", "order", "cstyle", "nsub", "n", "d", "file_ms", "subdir_s", "continuous",
-        "compression", "checksum", "start", "uuid", "channel",
+        "compression", "checksum", "start", "uuid", "channel", "tz",
     )
 
     def __init__(self, **kw):
@@ -53,6 +53,7 @@ class Cfg:
         self.start = int(kw["start"])     # absolute index of relative sample 0
         self.uuid = kw.get("uuid", "u0")
         self.channel = kw.get("channel", "ch0")
+        self.tz = kw.get("tz")            # TZ of the recording process (names are defined in UTC whatever it is)
 
     def to_json(self):
         return {k: getattr(self, k) for k in self.FIELDS}
@@ -542,8 +543,10 @@ def gen_cfg(rng, profile=None, cell=None):
         else:
             T += cfg.file_ms * rng.choice([0, 1])
         cfg.start = max(0, cfg.first_of(T) + rng.choice([-2, -1, 0, 0, 1, 2]))
-    if cfg.start >= 2**63:
+    # (indices between 2**63 and 2**64 are legal: n < 2**32 and a start before 2100 stay below 2**64)
+    if cfg.start >= 2**64 - 2**40:
         cfg.start = cfg.start % (2**62)
+    cfg.tz = rng.choice([None, None, None, "XYZ-05:30", "ABC+08", "UTC0", "EST5EDT,M3.2.0,M11.1.0"])
     return cfg
 
 
